@@ -542,8 +542,16 @@ static inline struct ubuf *ubuf_block_splice(struct ubuf *ubuf, int offset,
                                              int size)
 {
     struct ubuf *new_ubuf;
-    if (unlikely(ubuf->mgr->signature != UBUF_ALLOC_BLOCK ||
-                 (ubuf = ubuf_block_get(ubuf, &offset, &size)) == NULL ||
+    if (unlikely(ubuf->mgr->signature != UBUF_ALLOC_BLOCK))
+        return NULL;
+    size_t total_size = ubuf_block_from_ubuf(ubuf)->total_size;
+    if (offset < 0)
+        offset += total_size;
+    if (unlikely(offset < 0 ||
+                 (size != -1 && (size < 0 ||
+                                 (size_t)offset + (size_t)size > total_size))))
+        return NULL;
+    if (unlikely((ubuf = ubuf_block_get(ubuf, &offset, &size)) == NULL ||
                  !ubase_check(ubuf_control(ubuf, UBUF_SPLICE_BLOCK,
                                            &new_ubuf, offset, size))))
         return NULL;
